@@ -8,9 +8,9 @@ trip act only through these — and, outside the value, the cache root / worker 
 
 FULL STATEMENT: `C07_full_statement` — for ALL values.
 Status on the current tree: sets and frozensets are ordered by the digests of their elements (fix 847ae56e, D6 repaired),
-so nothing is required of them any more; the remaining decidable hypothesis `sortable` only concerns dict keys and attribute
-names, which `sorted(mapping)` still compares with Python's `<` (total on the keys of one class; keys of mutually unorderable
-classes raise TypeError in every session alike — a C08 matter, finding D68, not a session dependence).
+and the items of dicts / objects by the byte representation of their keys (fix e8ebe74c, D68 repaired): nothing is required
+about comparability any more.  The decidable hypothesis `sortable` that remains is well-formedness — the keys of one dict
+are pairwise different — and holds for every Python value, so the theorems below are the FULL statement for well-formed values.
 `C07_regression_xor` / `C07_regression_xor_none`: the former D6 witnesses, now seed-independent / not raising;
 `C07_old_xor_sorted_by_value` documents the OLD algorithm.
 -/
@@ -25,7 +25,7 @@ theorem C07_sorted_total {α : Type} (lt : α → α → Except Err Bool) (ltb :
     (hp : xs.Perm ys) (ha : AgreeOn lt ltb xs) (ht : TotalOn ltb xs) : pySorted lt xs = pySorted lt ys :=
   (pySorted_perm_eq lt ltb xs ys hp ha ht).1
 
-/-- The hash of a value is the same in every environment (FULL for sets; `sortable` only concerns dict keys) — any other iteration / insertion order, any other
+/-- The hash of a value is the same in every environment (FULL: `sortable` is well-formedness of dict keys) — any other iteration / insertion order, any other
     object identities (`v ≃ v'`) — with and without the memo (for tree / DAG values). -/
 theorem C07_value_env_invariant (H : Bytes → Bytes) (v v' : PyVal) (he : Equiv v v') (hs : sortable v = true) :
     (∃ h, hashAlone H v = .ok h ∧ hashAlone H v' = .ok h)
@@ -90,7 +90,7 @@ theorem fieldAlone_equiv (H : Bytes → Bytes) : ∀ (l l' : List (Bytes × PyVa
     obtain ⟨d, h1, h2⟩ := C08_order_indep H v v' hv hs.1
     simp only [fieldAlone, h1, h2, fieldAlone_equiv H xs ys hr hs.2]
 
-/-- (`sortable` only concerns dict keys) Two separately constructed tasks of the same type whose hashed inputs (field values and the Outputs class)
+/-- (FULL: `sortable` is well-formedness of dict keys) Two separately constructed tasks of the same type whose hashed inputs (field values and the Outputs class)
     are presentations of the same content get the same checksum, whatever the iteration / insertion orders and
     identities in the two sessions (values: trees / DAGs with totally ordered set elements and dict keys). -/
 theorem C07_checksum_env_invariant (H : Bytes → Bytes) (t t' : TaskDef) (ht : t.ttype = t'.ttype)
